@@ -984,6 +984,9 @@ def _get_unit_data_from_expr(unit_expr, unit_symbol_lut):
     if isinstance(unit_expr, Number):
         if unit_expr is sympy_one:
             return (1.0, sympy_one)
+        if not unit_expr.is_finite:
+            # nan (e.g. from m**(1/0)) or an infinity is not a coefficient
+            raise UnitParseError(f"Invalid unit expression '{unit_expr}'.")
         return (float(unit_expr), sympy_one)
 
     if isinstance(unit_expr, Symbol):
@@ -992,9 +995,14 @@ def _get_unit_data_from_expr(unit_expr, unit_symbol_lut):
     if isinstance(unit_expr, Pow):
         unit_data = _get_unit_data_from_expr(unit_expr.args[0], unit_symbol_lut)
         power = unit_expr.args[1]
-        if isinstance(power, Symbol):
+        # only a real, finite number is a valid exponent
+        if not (isinstance(power, Number) and power.is_real and power.is_finite):
             raise UnitParseError(f"Invalid unit expression '{unit_expr}'.")
-        conv = float(unit_data[0] ** power)
+        try:
+            conv = float(unit_data[0] ** power)
+        except (TypeError, ValueError, OverflowError):
+            # e.g. a fractional power of a negative coefficient is complex
+            raise UnitParseError(f"Invalid unit expression '{unit_expr}'.")
         unit = unit_data[1] ** power
         return (conv, unit)
 
